@@ -20,7 +20,8 @@ FUNCTIONS = ['dassh.region_rodded:RoddedRegion.calculate_pressure_drop',
              'dassh.region_unrodded:SingleNodeHomogeneous.calculate_friction_pressure_drop',
              'dassh.region_unrodded:SingleNodeHomogeneous.calculate_gravity_pressure_drop',
              'dassh.region_unrodded:SingleNodeHomogeneous.pressure_drop',
-             'dassh.assembly:Assembly.pressure_drop', 'dassh.assembly:Assembly.update_region (accumulation)']
+             'dassh.assembly:Assembly.pressure_drop', 'dassh.assembly:Assembly.update_region (accumulation)',
+             'dassh.assembly:Assembly._identify_active_region']
 ASSUMPTIONS = ['friction factor, velocity and density are the static values the region holds (positive atoms); that they '
                'are evaluated once at the bundle-average temperature is the documented design (constant within a sweep)',
                'step-size independence follows from additivity in dz (proved) and sum(dz) = L (C05)',
@@ -279,8 +280,42 @@ grids.cname = 'RoddedRegion.calculate_pressure_drop/two-grids'
 grids.run_kw = dict(pool_size=12, max_paths=400, check_div=False)
 
 
+def region_of_step(S, cfg):
+    """which region a step belongs to: planes on the 1e-12 m raster, region bounds as read (raster point + noise of a unit
+    conversion, below or above): the step that ends on plane P is computed by region j exactly when
+    B_j < P <= B_{j+1} on the raster - in particular the step that ends ON a region bound still belongs to the region
+    below it, whatever the noise, so that every region accumulates friction and gravity over its own length"""
+    from dassh import assembly as A
+    n = cfg['n_regions']
+    asm = A.Assembly.__new__(A.Assembly)
+    B, bnd = [0], [0.0]
+    for j in range(1, n):
+        step = S.int(f'B{j}', 1, 10 ** 11)
+        S.assume(step >= 1, 'region bounds are distinct raster points')
+        B.append(B[-1] + step)
+        noise = S.real(f'noise{j}', -0.4, 0.4)
+        S.assume(noise <= 0.4, 'conversion noise below 0.4 raster units')
+        S.assume(noise >= -0.4, 'conversion noise below 0.4 raster units')
+        bnd.append(_units(S, B[-1]) + _units(S, noise))
+    asm.region_bnd = bnd
+    P = S.int('P', 1, 4 * 10 ** 11)
+    S.assume(P >= 1, 'a step ends above the core inlet')
+    idx = asm._identify_active_region(_units(S, P))
+    S.holds('region.index_in_range', 0 <= idx < n)
+    if 0 <= idx < n:
+        S.le('region.step_ends_above_the_lower_bound', B[idx] + 1, P)
+        if idx + 1 < n:
+            S.le('region.step_ends_not_above_the_upper_bound', P, B[idx + 1])
+    S.holds('canary.region_always_the_first', idx == 0, canary=True)
+
+
+region_of_step.cname = 'Assembly._identify_active_region'
+region_of_step.run_kw = dict(pool_size=10, check_div=False)
+
+
 def configs(tier):
-    out = [(rodded, dict(gravity=True)), (rodded, dict(gravity=False)),
+    out = [(region_of_step, dict(n_regions=2)), (region_of_step, dict(n_regions=3)),
+           (rodded, dict(gravity=True)), (rodded, dict(gravity=False)),
            (grid, dict(where='first')), (grid, dict(where='second')), (grid, dict(where='on_plane')),
            (grid, dict(where='any')), (grid, dict(where='near_plane')),
            (grids, dict(first=True)), (grids, dict(first=False)), (grids, dict(first=True, same=True)),
